@@ -36,6 +36,16 @@ CLAIMED = {
         "DESIGN.md 4 C03",
         "Parsability of default candidates is decided with the real parser (C01/C02's subject).",
     ),
+    "C04": (
+        "fault enumeration: product of handler outcomes (return values, exception kinds x messages x origins, pre-handle listeners) x verbosity x ANSI through Application.run, validity predicates on status / report / handler log; Hypothesis-generated messages",
+        "Every listed handler return value and every (exception kind x adversarial message) cell with cycling origins (generated module, "
+        "deep and mutual recursion, exec'd / source-less code, cause chains) and pre-handle listener behaviours is run through "
+        "Application.run with captured streams: no exception escapes, status in 0..255 with the stated zero/clamp rule, report printed "
+        "with the message text, exactly the selected handler invoked once.",
+        "DESIGN.md 4 C04",
+        "",
+        "fault_enumeration",
+    ),
     "C05": (
         "Hypothesis operation histories on one parser instance, differential against a fresh parser per step, input snapshots",
         "Histories of valid / faulty / soup parse requests over 1-2 formats on one DefaultArgsParser, every step compared with a "
@@ -117,7 +127,8 @@ def main():
     for p in props:
         pid = p["id"]
         if pid in CLAIMED:
-            tech, text, ref, extra = CLAIMED[pid]
+            tech, text, ref, extra = CLAIMED[pid][:4]
+            category = CLAIMED[pid][4] if len(CLAIMED[pid]) > 4 else "exploration"
             checks.append(
                 {
                     "property_id": pid,
@@ -126,7 +137,7 @@ def main():
                     "evidence_file": "evidence/%s.json" % pid,
                     "replay_cmd_template": "./check %s --replay {path}" % pid,
                     "engine": "vf",
-                    "level_claimed": {"category": "exploration", "text": text, "design_ref": ref},
+                    "level_claimed": {"category": category, "text": text, "design_ref": ref},
                     "level_note": (NOTE + " " + extra).strip(),
                     "technique": tech,
                 }
